@@ -151,6 +151,7 @@ def check_strings(prog, res, contracts):
     reports how many characters it matched has seen them non-zero.  Functions whose string was accepted by a validator
     (hexIsValid(s) in an ASSERT or an early return) rely on that validator's guarantee and are out of this rule."""
     names, skipped = [], {}
+    frozen_seen = set()
     for f in prog.all_funcs():
         if f.relfile not in STR_UNITS or f.body is None or not db.find_str_pairs(f):
             continue
@@ -185,9 +186,11 @@ def check_strings(prog, res, contracts):
             if all(v):
                 res.proved("DB.6-string-read-before-terminator", function=n, file=f.relfile, line=line, construct=text,
                            detail="every smaller index was found non-zero on each of the %d abstract state(s)" % len(v))
-            elif (n, text) in FROZEN_STR:
-                res.undecided("DB.6-string-read-before-terminator", function=n, file=f.relfile, line=line, construct=text,
-                              detail=FROZEN_STR[(n, text)])
+            elif n in FROZEN_STR:
+                if n not in frozen_seen:
+                    frozen_seen.add(n)
+                    res.undecided("DB.6-string-read-before-terminator", function=n, file=f.relfile, line=line,
+                                  construct="string reads of %s" % n, detail=FROZEN_STR[n])
             else:
                 res.violation("DB.6-string-read-before-terminator", function=n, file=f.relfile, line=line,
                               construct="read `%s` may lie beyond the string's terminator" % text,
@@ -209,10 +212,11 @@ def check_strings(prog, res, contracts):
 
 
 # reads whose safety needs reasoning outside the linear domain: (function, read) -> reason
+# (frozen per function, not per read expression: how the reads are spelled must not matter)
 FROZEN_STR = {
-    ("b64IsValid", "b64[(--len - 1)]"): "len % 4 == 0 and len >= 1 give len >= 4: divisibility is outside the linear domain",
-    ("b64IsValid", "b64[(len - 1)]"): "len >= 2 follows from len % 4 in {2, 3}: divisibility is outside the linear domain",
-    ("b64IsValid", "*b64"): "the loop runs over the len characters counted by strLen after the padding was taken off; the relation is lost with the divisibility facts above",
+    "b64IsValid": "the padding test reads b64[len - 1] and b64[len - 2] where len >= 4 follows from len % 4 == 0 and len >= 1, "
+                  "and the final loop runs over the len characters counted by strLen after the padding was taken off: "
+                  "divisibility is outside the linear domain, so the reads of this function are not decided",
 }
 
 
@@ -418,7 +422,7 @@ FROZEN = {
     "derTSEQDecStop": "the anchor's tag and length were decoded from valid DER by derTSEQDecStart, so re-encoding them cannot fail",
 }
 FROZEN_UNDECIDED = [{"rule": "DB.2-result-examined", "function": k, "construct": "encoder result of anchor fields"} for k in FROZEN] + \
-    [{"rule": "DB.6-string-read-before-terminator", "function": fn, "construct": txt} for (fn, txt) in FROZEN_STR]
+    [{"rule": "DB.6-string-read-before-terminator", "function": fn, "construct": "string reads of %s" % fn} for fn in FROZEN_STR]
 
 
 def check_discipline(prog, res):
